@@ -1,3 +1,3 @@
 INIT Init
 NEXT Next
-INVARIANTS C19_DecTotal C19_DecValue C19_DecRefuse C19_EncTotal C19_EncValue C19_EncRefuse C19_Size C19_DecDigest C19_EncDigest C19_DecBlock
+INVARIANTS C19_DecTotal C19_DecValue C19_DecRefuse C19_EncTotal C19_EncValue C19_EncRefuse C19_Size C19_BertBuffer C19_DecDigest C19_EncDigest C19_DecBlock
